@@ -5,8 +5,6 @@ From GV Require Import C06.Proofs C06.NoOI.
 Open Scope Z_scope.
 Ltac Zify.zify_post_hook ::= Z.div_mod_to_equations.
 
-Definition ordered_prices (ps : prices) : Prop :=
-  ordered (px_index ps) /\ ordered (px_long ps) /\ ordered (px_short ps).
 
 Section P.
   Variable w : Z.
